@@ -93,6 +93,7 @@ type Run struct {
 	entFiredSeen  int
 	keyParts      map[string]string
 	shortSecret   bool
+	shortRotated  bool
 	writeMark     int
 	branching     []int    // branching factor at each scheduling decision of the concurrent steps
 	schedules     []string // storage-call schedules of the concurrent steps
@@ -127,11 +128,12 @@ func (r *Run) violate(prop, rule, key, f string, a ...interface{}) {
 func (r *Run) taint(g *Grant) {
 	if g != nil {
 		g.Unspec = true
+		g.Vague = true
 	}
 }
 
 func (r *Run) sanity(f string, a ...interface{}) {
-	if r.shortSecret {
+	if r.shortSecret || r.shortRotated {
 		return // a global secret shorter than 32 bytes is refused: nothing can be minted, every request that mints fails
 	}
 	s := fmt.Sprintf("step %d: ", r.Idx) + fmt.Sprintf(f, a...)
